@@ -16,7 +16,8 @@ ASSUMPTIONS = ["the server double implements our reading of the server's routing
                "python-axolotl's block-aligned padding defect is shimmed (third party)",
                "restarts happen only when nothing is in flight; eventual delivery is judged at quiescence with every party connected"]
 REQUIRED = ["runs", "wiring:full", "wiring:framed", "messages_sent", "deliveries_checked", "receipts_checked", "frames_scanned", "kind:text", "kind:image",
-            "target:group", "target:direct", "fault:dup", "fault:corrupt", "restarts", "sessions_bootstrapped", "retries_seen", "lead_fields_checked", "kind:reply", "threaded_runs", "threaded_yields"]
+            "target:group", "target:direct", "fault:dup", "fault:corrupt", "restarts", "sessions_bootstrapped", "retries_seen", "lead_fields_checked", "kind:reply", "threaded_runs", "threaded_yields",
+            "overtaken_cases", "overtaken_sender_held", "overtaken_retry_served_around_hold"]
 TIMEOUT = {"quick": 600, "thorough": 7200}
 
 KINDS = ["text", "text", "extended", "image", "location", "contact", "link", "reply"]
@@ -400,15 +401,126 @@ def one_run(acc, seed, tag):
     return w
 
 
+def overtaken_case(acc, seed, tag):
+    """Race placement (found by a thorough run, 1 schedule in 25 000): an application thread has encrypted a group message and is
+    held before it hands the stanza down; meanwhile the network thread serves a retry receipt for the sender's FIRST (damaged)
+    group message, i.e. encrypts a sender key re-distribution at a later chain iteration, and writes it. Every message has to be
+    shown exactly once all the same."""
+    from vf import world, inject
+    r = gen.rng(seed, ID, tag)
+    nacc = r.choice([2, 2, 3])
+    phones = ["49%d%s" % (i + 1, gen.s_from(r, gen.DIGITS, 8)) for i in range(nacc)]
+    W = world.World(seed=r.randrange(1 << 30), strategy=r.choice(["uniform", "newest", "app-last"]), batch=r.choice([30, 40]))
+    W.server.low_keys = 12
+    W.server.skmsg_first = r.random() < 0.3
+    for p in phones:
+        W.add_client(p)
+    S = phones[0]
+    gj = "%s-%d@g.us" % (S, 1500000000)
+    groups = {gj: ["%s@s.whatsapp.net" % p for p in phones]}
+    W.server.groups[gj] = {"participants": groups[gj], "subject": "G", "creator": groups[gj][0]}
+    msgs = []
+    seen_targets = set()
+
+    def send(sender, target, kind, fault=None):
+        m = Msg(len(msgs) + 1, sender, target, kind, r)
+        m.fault = fault
+        m.first_to_target = (sender, target) not in seen_targets
+        seen_targets.add((sender, target))
+        msgs.append(m)
+
+        def mk(m=m):
+            e = m.build(W)
+            m.entity_id = e.getId()
+            if m.fault:
+                W.server.faults[m.entity_id] = {m.fault: True}
+            return e
+        return {"op": "send", "who": sender, "kind": kind, "uid": m.uid, "msg": m, "build": mk}
+
+    def run_actions(actions):
+        W.script = list(W.script[:W.script_pos]) + actions
+        return W.run(max_steps=W.steps + 6000)
+    w = {"kind": "overtaken", "tag": tag, "accounts": nacc, "latecomer": None}
+    try:
+        acts = [{"op": "connect", "who": p} for p in phones] + [{"op": "wait-quiet"}]
+        if r.random() < 0.7:
+            # the members know each other pairwise already
+            for p in phones[1:]:
+                acts += [send(S, "%s@s.whatsapp.net" % p, r.choice(KINDS)), {"op": "wait-quiet"}]
+        if not run_actions(acts):
+            acc.inconc("%s: not quiet after the opening" % tag)
+            return
+        # the sender's first message to the group, damaged on its way to the members; stepped until the sender has encrypted and
+        # written it (its sender key exists), before the server has relayed it
+        W.do_action(send(S, gj, r.choice(KINDS), "corrupt"))
+        guard = 0
+        while W.clients[S].manager().load_senderkey(gj).isEmpty():
+            guard += 1
+            if not W.step() or guard > 500:
+                acc.inconc("%s: the first group message was never encrypted" % tag)
+                return
+        W.threaded_sends = True
+        k = r.choice([1, 1, 2, 4])
+        with inject.PauseAt(("yowsup/layers/axolotl/layer_send.py",), k, "verif-app-sender-0", hold=r.choice([1.0, 1.5]), funcs=("sendEncEntities",)) as pa:
+            W.do_action(send(S, gj, r.choice(KINDS)))
+            if not pa.at_point.wait(10):
+                acc.inconc("%s: the sender thread never reached the place between encryption and hand-over" % tag)
+                return
+            acc.count("overtaken_sender_held")
+            w["held_at"] = pa.where
+            n0 = len([1 for ph, t in W.wire_receipts if t[1].get("type") == "retry"])
+            # (on a tree where encryption and hand-over are one step the network thread waits here until the hold is over)
+            steps = 0
+            while W.step() and steps < 3000:
+                steps += 1
+            if len([1 for ph, t in W.wire_receipts if t[1].get("type") == "retry"]) > n0 or any(t[1].get("type") == "retry" for ph, t in W.wire_receipts):
+                acc.count("overtaken_retry_served_around_hold")
+            pa.release()
+            quiet = W.run(max_steps=W.steps + 6000)
+        if not quiet:
+            acc.inconc("%s: not quiet after the held message was released" % tag)
+            return
+        # ... and the conversation goes on
+        more = [send(r.choice(phones), gj, r.choice(KINDS)) for _ in range(r.randint(0, 2))]
+        more = [a for a in more]
+        W.threaded_sends = False
+        if not run_actions(more + [{"op": "wait-quiet"}]):
+            acc.inconc("%s: not quiet at the end" % tag)
+            return
+        acc.count("overtaken_cases")
+        from vf.evidence import h
+        acc.case(h(["overtaken", tag, w.get("held_at")]), nontrivial=True)
+        w["script"] = [("send", m.sender, m.kind, m.target, m.fault) for m in msgs]
+        if check_world(acc, W, msgs, groups, w):
+            acc.count("overtaken_ok")
+    except Exception:  # noqa: harness-level failure
+        import traceback
+        acc.inconc("%s: overtaken case crashed: %s" % (tag, traceback.format_exc()[-500:]))
+    finally:
+        try:
+            W.join_senders(5.0)
+            W.close()
+        except Exception:  # noqa
+            pass
+    return w
+
+
 def shards(tier, seed, nworkers):
     q = tier == "quick"
     nsh = 6 if q else nworkers
-    return [{"kind": "runs", "shard": i, "n": (420 if q else 25000) // nsh} for i in range(nsh)]
+    return [{"kind": "runs", "shard": i, "n": (420 if q else 25000) // nsh} for i in range(nsh)] + \
+           [{"kind": "overtaken", "shard": i, "n": (6 if q else 160) // nsh} for i in range(nsh)]
 
 
 def run(spec, acc):
     from vf import env
     env.shim_thirdparty()
+    if spec["kind"] == "overtaken":
+        for i in range(spec["n"]):
+            w = overtaken_case(acc, spec["seed"], "ovt/%d/%d" % (spec["shard"], i))
+            if i < 1 and w:
+                acc.sample(w)
+        return
     for i in range(spec["n"]):
         tag = "run/%d/%d" % (spec["shard"], i)
         w = one_run(acc, spec["seed"], tag)
@@ -419,4 +531,7 @@ def run(spec, acc):
 def replay(spec, acc):
     from vf import env
     env.shim_thirdparty()
+    if spec["witness"].get("kind") == "overtaken" or spec["witness"]["tag"].startswith("ovt/"):
+        overtaken_case(acc, spec["seed"], spec["witness"]["tag"])
+        return
     one_run(acc, spec["seed"], spec["witness"]["tag"])
